@@ -348,7 +348,12 @@ def lit(a) -> str:
         us = a["v"]
         sign = "-" if us < 0 else ""
         us = abs(us)
-        return 'duration("%s%d.%06ds")' % (sign, us // 10**6, us % 10**6) if us % 10**6 else 'duration("%s%ds")' % (sign, us // 10**6)
+        if us % 10**6 == 0:
+            return 'duration("%s%ds")' % (sign, us // 10**6)
+        if us < 10**6:
+            return 'duration("%s%dus")' % (sign, us)
+        # the library parses duration text through floats: seconds and microseconds are spelled separately so both are exact
+        return '(duration("%s%ds") + duration("%s%dus"))' % (sign, us // 10**6, sign, us % 10**6)
     if t == "type":
         return a["v"]
     raise ValueError(a)
